@@ -7,6 +7,7 @@ import (
 
 	"github.com/pgavlin/dawn/verif/cosched"
 	"github.com/pgavlin/dawn/verif/ev"
+	"github.com/pgavlin/dawn/verif/projsim"
 	"github.com/pgavlin/dawn/verif/rungraph"
 	"pgregory.net/rapid"
 )
@@ -14,6 +15,7 @@ import (
 var run *ev.Run
 
 func TestMain(m *testing.M) {
+	projsim.MaybeChild()
 	run = ev.Start("C04", "exploration",
 		"rapid draws an acyclic dependency graph of 2-14 targets (diamonds, shared sub-graphs, chains, fans; nodes may fail in their body or be unknown to "+
 			"LoadTarget; a node may split its dependencies over two requests and repeat a label) and a schedule: a choice vector for the cooperative token "+
